@@ -186,6 +186,19 @@ func advTOC(d func(int) int, payloadLen int64, maxDepth int) ([]byte, []string) 
 			&estargz.TOCEntry{Name: "ov", Type: "chunk", Offset: 0, ChunkOffset: 30, ChunkSize: 90, ChunkDigest: dg},
 			&estargz.TOCEntry{Name: "ov", Type: "chunk", Offset: 0, ChunkOffset: 10, ChunkSize: 0, ChunkDigest: dg})
 		notes = append(notes, "overlapping-chunks")
+	case 4: // a subtree hanging under a non-directory, 1-3 levels down (intermediate directories implied), linking back to it
+		typ := []string{"reg", "symlink", "char", "hardlink"}[d(4)]
+		top := &estargz.TOCEntry{Name: "nd", Type: typ, Mode: 0644}
+		if typ == "hardlink" {
+			ents = append(ents, &estargz.TOCEntry{Name: "ndt", Type: "reg", Mode: 0644})
+			top.LinkName = "ndt"
+		}
+		leaf := &estargz.TOCEntry{Name: "nd/" + strings.Repeat("m/", d(3)) + "l", Type: []string{"hardlink", "hardlink", "reg", "dir"}[d(4)], Mode: 0755}
+		if leaf.Type == "hardlink" {
+			leaf.LinkName = "nd"
+		}
+		ents = append(ents, top, leaf)
+		notes = append(notes, "subtree-under-non-directory")
 	}
 	ver := []int{1, 1, 0, 2, -1}[d(5)]
 	j, _ := json.Marshal(&estargz.JTOC{Version: ver, Entries: ents})
